@@ -3,7 +3,7 @@
 # runs the quick check of its property against it. Never touches /repo's working tree.
 # usage: tools_sensitivity.sh [dir] [name-filter]
 export GOFLAGS=-mod=mod GOPROXY=off GOSUMDB=off GOTOOLCHAIN=local
-V=/verif; DIR="${1:-$V/sensitivity}"; FILTER="${2:-}"
+V="$(cd "$(dirname "$0")" && pwd)"; DIR="${1:-$V/sensitivity}"; FILTER="${2:-}"
 WT=/root/scratch/wt-sens-$$; OUT=/root/scratch/sens-out-$$; mkdir -p "$OUT"
 git -C /repo worktree add -q "$WT" HEAD || exit 2
 trap 'git -C /repo worktree remove --force "$WT"; rm -rf "$OUT"' EXIT
